@@ -578,7 +578,7 @@ def rod_params(draw, bc=None, nsum=None):
     if bc == 1:
         p.update(alpha1=a, beta1=0.0, gamma1=c1, alpha2=b, beta2=0.0, gamma2=c2)
     elif bc == 2:
-        p.update(alpha1=0.0, beta1=a, gamma1=c1 * a, alpha2=0.0, beta2=b, gamma2=c1 * b)   # equal fluxes required
+        p.update(alpha1=0.0, beta1=a, gamma1=c1, alpha2=0.0, beta2=a, gamma2=c1)   # equal fluxes required (compared with == by the solver)
     elif bc == 3:
         p.update(alpha1=a, beta1=0.0, gamma1=c1, alpha2=0.0, beta2=b, gamma2=c2)
     else:
